@@ -192,10 +192,10 @@ type c17OAIMsg struct {
 	Error   json.RawMessage `json:"error"`
 	Object  string          `json:"object"`
 	Choices []struct {
-		Text    *string `json:"text"`
+		Text    *string      `json:"text"`
 		Message *c17OAIDelta `json:"message"`
 		Delta   *c17OAIDelta `json:"delta"`
-		Finish  *string `json:"finish_reason"`
+		Finish  *string      `json:"finish_reason"`
 	} `json:"choices"`
 	Usage *struct {
 		PromptTokens     int `json:"prompt_tokens"`
